@@ -323,6 +323,14 @@ def norm_impl(out, sel):
             return {"ord": o["ord"][sel], "cum": [fq(x) for x in o["cum"][sel]],
                     "pp": sorted([[i, fq(x)] for i, x in o["pp"][sel]]), "pd": sorted([[i, fq(x)] for i, x in o["pd"][sel]])}
         n["ord"] = r(out["ord_both"], ob)
+    n["ordm"] = []
+    for selm, v in out.get("ord_multi", []):
+        if "ok" in v:
+            n["ordm"].append([selm, {"ok": [[k, {"ord": o, "cum": [fq(x) for x in cum], "pp": sorted([[i, fq(x)] for i, x in pp]),
+                                                 "pd": sorted([[i, fq(x)] for i, x in pd])}] for k, o, cum, pp, pd in v["ok"]]}])
+        else:
+            n["ordm"].append([selm, v])
+    n["ordm_cum"] = out.get("ord_multi_cum", [])
     return n
 
 
@@ -361,8 +369,11 @@ def ccell(segs):
         copt(s[3], cpt), cpt(s[4])))
 
 
-def cobs(n, resolved):
+def cobs(n, resolved, groups=None):
     zq = lambda a: "(%s, %s)" % (cz(a[0]), cq(a[1]))
+
+    def co(o):
+        return "(%s, %s, %s, %s)" % (clist(o["ord"], cz), clist(o["cum"], cq), clist(o["pp"], zq), clist(o["pd"], zq))
     parts = [
         clist(n["aprox"], lambda a: "(%s, %s)" % (cz(a[0]), cres(a[1], cpt))),
         clist(n["lens"], lambda a: "(%s, %s)" % (cz(a[0]), cres(a[1], cq))),
@@ -378,14 +389,21 @@ def cobs(n, resolved):
         clist(n["ats"], lambda a: "(%s, %s, %s)" % (cq(a[0]), cz(a[1]), cres(a[2], lambda l: clist(l, zq)))),
     ]
     if "ord" in n and resolved is not None:
-        def co(o):
-            return "(%s, %s, %s, %s)" % (clist(o["ord"], cz), clist(o["cum"], cq), clist(o["pp"], zq), clist(o["pd"], zq))
         o = n["ord"]
         if "ok" in o and o["ok"].get("ord") is None:
             o = {"err": "EOther"}
         parts.append("(Some (%s, %s))" % (clist(resolved, cz), cres(o, co)))
     else:
         parts.append("None")
+    ordm = []
+    for selm, v in (n.get("ordm", []) if groups is not None else []):
+        if "ok" in v:
+            for k, data in v["ok"]:
+                ordm.append("(%s, (Ok %s))" % (clist(resolve(groups, k), cz), co(data)))
+        else:
+            for k in dict.fromkeys(selm):
+                ordm.append("(%s, %s)" % (clist(resolve(groups, k), cz), cres(v, co)))
+    parts.append(coq_list(ordm))
     return "(mkobs %s)" % " ".join(parts)
 
 
@@ -394,7 +412,7 @@ HEADER = ("From Coq Require Import List ZArith QArith.\nFrom LNML Require Import
 
 COMPONENT = {1: "actual_prox", 2: "seg_length", 3: "adjacency", 4: "get_graph", 5: "morphology_root",
              6: "branching_points", 7: "extremities", 8: "nx_dist", 9: "nx_sssp", 10: "segments_at_distance",
-             11: "ordered_run", 12: "outside-the-domain(wfb/root_has_proxb)"}
+             11: "ordered_run", 12: "outside-the-domain(wfb/root_has_proxb)", 13: "ordered_multi"}
 
 
 def parse_mismatches(s):
@@ -468,6 +486,15 @@ def predicate(case, ref, n, resolved):
             for i, x in n["ord"]["ok"]["pp"]:
                 if i in viag and viag[i] != x:
                     bad.append(("graph_vs_ordered", {"get_distance": viag[i]}, {"path_length_to_proximal": x, "segment": i}))
+    # several groups in one call: each returned group must carry exactly what the single-group call / the definition gives
+    groups = case.get("_groups")
+    for (selm, v), (_, vc) in zip(n.get("ordm", []), n.get("ordm_cum", []) or [[None, None]] * len(n.get("ordm", []))):
+        exp = {"ok": [[k, ref_ordered(ref, resolve(groups, k))] for k in dict.fromkeys(selm)]}
+        if "err" in v or not same(exp, v):
+            bad.append(("ordered_segments:several-groups-in-one-call", {"group_list": selm, "per group": exp}, v))
+        elif vc is not None and ("ok" not in vc or jq([[k, o, [fq(x) for x in cum]] for k, o, cum in vc["ok"]])
+                                 != jq([[k, d["ord"], d["cum"]] for k, d in v["ok"]])):
+            bad.append(("ordered_segments:several-groups-in-one-call", {"group_list": selm, "cumulative-only call": "same values"}, vc))
     return bad
 
 
@@ -488,6 +515,17 @@ def make_case(rng, segs, default_calls=False, extra_bad=True):
     case = case_payload(segs, groups, sel, pairs, srcs, ats, default_calls)
     case["_segs"], case["_ref"], case["_ats"] = segs, ref, ats
     case["_resolved"] = resolve(groups, sel)
+    # several groups in one call: 2-4 groups, overlapping and disjoint, any order, the same group twice
+    gids = [g[0] for g in groups]
+    multi = []
+    for _ in range(2):
+        k = rng.randrange(2, min(4, len(gids)) + 1)
+        selm = rng.sample(gids, k)
+        if rng.random() < 0.3:
+            selm.insert(rng.randrange(len(selm) + 1), rng.choice(selm))      # the same group twice
+        multi.append(selm)
+    case["multi"] = multi
+    case["_groups"] = groups
     return case
 
 
@@ -755,7 +793,7 @@ def run(ck):
     jobs = []
     for fi, k in enumerate(range(0, len(cases), CH)):
         chunk = list(zip(cases[k:k + CH], norm[k:k + CH]))
-        body = ";\n".join("(%s,\n %s)" % (ccell(c["_segs"]), cobs(n, c["_resolved"])) for c, n in chunk)
+        body = ";\n".join("(%s,\n %s)" % (ccell(c["_segs"]), cobs(n, c["_resolved"], c.get("_groups"))) for c, n in chunk)
         text = HEADER + "Definition cases : list case13 := [\n%s\n].\nEval vm_compute in (mismatches cases).\n" % body
         jobs.append((fi, chunk, text))
     from concurrent.futures import ThreadPoolExecutor
@@ -788,12 +826,12 @@ def run(ck):
 
 def component_of(n, comp):
     return {1: n["aprox"], 2: n["lens"], 3: n["adj"], 4: n["graph"], 5: n["root"], 6: n["bp"], 7: n["tips"],
-            8: n["pairs"], 9: n["all"], 10: n["ats"], 11: n.get("ord"), 12: "the generated cell is not a tree with a root proximal"}.get(comp)
+            8: n["pairs"], 9: n["all"], 10: n["ats"], 11: n.get("ord"), 13: n.get("ordm"), 12: "the generated cell is not a tree with a root proximal"}.get(comp)
 
 
 def model_output(ck, c, n, k):
     text = HEADER + "Definition c := %s.\nDefinition i := %s.\nEval vm_compute in (model_obs c i).\n" % (
-        ccell(c["_segs"]), cobs(n, c["_resolved"]))
+        ccell(c["_segs"]), cobs(n, c["_resolved"], c.get("_groups")))
     ok, res, outp = ck.coq_eval("Model_C13_%d.v" % k, text, timeout=300)
     return res[0][:4000] if ok and res else outp[-1000:]
 
@@ -834,6 +872,7 @@ def replay(ck, data):
                       "stored_expected": data.get("expected"), "stored_observed": data.get("observed")}, indent=1)[:8000])
     c2 = dict(case)
     c2["_segs"], c2["_ref"] = segs, ref
+    c2["_groups"] = case.get("groups")
     c2["_resolved"] = resolve(case["groups"], case["group"]) if case.get("group") is not None else None
     n = norm_impl(out, case.get("group"))
     bad = predicate(c2, ref, n, c2["_resolved"])
